@@ -51,6 +51,120 @@ def inject_error(m, rng):
     return "%s/%s" % (kind, what)
 
 
+def old_syntax_pair(rng):
+    """A random model of the 3.x syntax (newxta = false) as XML and as XTA: ';'-separated parameters, 'const K 3;',
+    ','-conjunctions in guards and invariants, ':=' assignments, instantiations with ':='.  The XML rendering puts the
+    instantiations either into the <instantiation> element or in front of the system line."""
+    from ..xmlgen import esc, HEADER
+    r = rng
+    consts = ["K%d" % i for i in range(r.randint(1, 2))]
+    ints = ["n%d" % i for i in range(r.randint(1, 3))]
+    clocks = ["x%d" % i for i in range(r.randint(1, 2))]
+    chans = ["c%d" % i for i in range(r.randint(1, 2))]
+    gdecl = "clock %s; int %s; %schan %s; %s" % (", ".join(clocks), ", ".join(ints), r.choice(["", "", "urgent ", "broadcast "]),
+                                               ", ".join(chans), " ".join("const %s %d;" % (k, r.randint(1, 9)) for k in consts))
+    if r.random() < 0.3:
+        gdecl += " int[0,%d] bnd;" % r.randint(2, 7)
+        ints.append("bnd")
+    templates = []
+    for ti in range(r.randint(1, 2)):
+        name = "T%d" % ti
+        params = []
+        tints, tclocks = list(ints), list(clocks)
+        if r.random() < 0.6:
+            params.append("const lo")
+            if r.random() < 0.5:
+                params.append("int hi")
+                tints.append("hi")
+        ldecl = "clock y; int k;" if r.random() < 0.7 else "clock y;"
+        tclocks.append("y")
+        if "int k" in ldecl:
+            tints.append("k")
+        names = ["a", "b", "cc", "d"][:r.randint(1, 4)]
+        locs = []
+        for ln in names:
+            inv = None
+            if r.random() < 0.4:
+                inv = ", ".join("%s <= %s" % (r.choice(tclocks), r.choice(consts + [str(r.randint(1, 9))])) for _ in range(r.randint(1, 2)))
+            locs.append((ln, inv, r.choice([None, None, None, "urgent", "committed"])))
+        edges = []
+        for _ in range(r.randint(0, 5)):
+            labs = {}
+            if r.random() < 0.5:
+                atoms = []
+                for _ in range(r.randint(1, 2)):
+                    if r.random() < 0.5:
+                        atoms.append("%s %s %s" % (r.choice(tclocks), r.choice([">=", "<", "<=", ">", "=="]), r.choice(consts + ["lo"] if "const lo" in params else consts)))
+                    else:
+                        atoms.append("%s %s %d" % (r.choice(tints), r.choice(["==", "<", ">", "!="]), r.randint(0, 5)))
+                labs["guard"] = ", ".join(atoms)
+            if r.random() < 0.35:
+                labs["sync"] = r.choice(chans) + r.choice("!?")
+                if "urgent" in gdecl or "broadcast" in gdecl:
+                    labs.pop("guard", None)
+            if r.random() < 0.6:
+                labs["assign"] = ", ".join(r.choice(["%s := %d" % (r.choice(tints), r.randint(0, 3)), "%s := 0" % r.choice(tclocks),
+                                                     "%s := %s + 1" % (r.choice(tints), r.choice(tints))]) for _ in range(r.randint(1, 3)))
+            edges.append((r.choice(names), r.choice(names), labs))
+        templates.append({"name": name, "params": params, "ldecl": ldecl, "locs": locs, "init": r.choice(names), "edges": edges})
+    insts, procs = [], []
+    for t in templates:
+        for k in range(r.randint(1, 2)):
+            if t["params"]:
+                pn = "P%s_%d" % (t["name"], k)
+                args = [str(r.randint(0, 4))] + ([r.choice(ints)] if len(t["params"]) > 1 else [])
+                insts.append("%s := %s(%s);" % (pn, t["name"], ", ".join(args)))
+                procs.append(pn)
+            elif k == 0:
+                procs.append(t["name"])
+    sysline = "system %s;" % ", ".join(procs)
+    # ---- XML
+    o = [HEADER, "<nta>\n<declaration>", esc(gdecl), "</declaration>\n"]
+    for t in templates:
+        o.append("<template><name>%s</name>" % t["name"])
+        if t["params"]:
+            o.append("<parameter>%s</parameter>" % esc("; ".join(t["params"])))
+        o.append("<declaration>%s</declaration>" % esc(t["ldecl"]))
+        for i, (ln, inv, flag) in enumerate(t["locs"]):
+            o.append('<location id="%s_%d"><name>%s</name>%s%s</location>' % (t["name"], i, ln, '<label kind="invariant">%s</label>' % esc(inv) if inv else "",
+                                                                               "<%s/>" % flag if flag else ""))
+        idx = {ln: "%s_%d" % (t["name"], i) for i, (ln, _, _) in enumerate(t["locs"])}
+        o.append('<init ref="%s"/>' % idx[t["init"]])
+        for src, dst, labs in t["edges"]:
+            o.append('<transition><source ref="%s"/><target ref="%s"/>' % (idx[src], idx[dst]))
+            for k, kind in (("guard", "guard"), ("sync", "synchronisation"), ("assign", "assignment")):
+                if k in labs:
+                    o.append('<label kind="%s">%s</label>' % (kind, esc(labs[k])))
+            o.append("</transition>")
+        o.append("</template>\n")
+    if insts and r.random() < 0.6:
+        o.append("<instantiation>%s</instantiation>\n<system>%s</system>\n" % (esc("\n".join(insts)), esc(sysline)))
+    else:
+        o.append("<system>%s</system>\n" % esc("\n".join(insts + [sysline])))
+    o.append("</nta>\n")
+    # ---- XTA
+    x = [gdecl, "\n"]
+    for t in templates:
+        x.append("process %s%s {\n%s\n" % (t["name"], "(%s)" % "; ".join(t["params"]) if t["params"] else "", t["ldecl"]))
+        x.append("state " + ", ".join(ln + (" { %s }" % inv if inv else "") for ln, inv, _ in t["locs"]) + ";\n")
+        com = [ln for ln, _, f in t["locs"] if f == "committed"]
+        urg = [ln for ln, _, f in t["locs"] if f == "urgent"]
+        if com:
+            x.append("commit %s;\n" % ", ".join(com))
+        if urg:
+            x.append("urgent %s;\n" % ", ".join(urg))
+        x.append("init %s;\n" % t["init"])
+        if t["edges"]:
+            es = []
+            for src, dst, labs in t["edges"]:
+                body = "".join(" %s %s;" % (k, labs[k]) for k in ("guard", "sync", "assign") if k in labs)
+                es.append("  %s -> %s {%s }" % (src, dst, body))
+            x.append("trans\n" + ",\n".join(es) + ";\n")
+        x.append("}\n")
+    x.append("\n".join(insts + [sysline]) + "\n")
+    return "".join(o), "".join(x)
+
+
 def run(rep, tier, seed):
     rng = random.Random(seed * 1000003 + 5)
     quick = tier == "quick"
@@ -71,6 +185,13 @@ def run(rep, tier, seed):
         c = Case("p%d" % i, [Step("parse_doc", 0, "xml_buffer", 1, 1, xml),
                              Step("parse_doc", 1, rng.choice(["xta_buffer", "xta_file"]), 1, 1, xta)], timeout=60)
         items.append((m, c, faulty))
+    # the 3.x syntax switch
+    n_old = 300 if quick else 6000
+    for i in range(n_old):
+        xml, xta = old_syntax_pair(rng)
+        c = Case("o%d" % i, [Step("parse_doc", 0, rng.choice(["xml_buffer", "xml_file"]), 0, 1, xml),
+                             Step("parse_doc", 1, rng.choice(["xta_buffer", "xta_file"]), 0, 1, xta)], timeout=60)
+        items.append(({"templates": [{"edges": [1]}], "old": True}, c, "old-syntax"))
     res = run_cases([c for _, c, _ in items])
     n_rej = 0
     for m, c, faulty in items:
@@ -89,7 +210,7 @@ def run(rep, tier, seed):
         if ex or et:
             n_rej += 1
         if ex != et:
-            rep.violation("C05:diagnostics-differ:%s" % ("injected-" + faulty if faulty else "accepted-model"),
+            rep.violation("C05:diagnostics-differ:%s" % (faulty if faulty == "old-syntax" else ("injected-" + faulty if faulty else "accepted-model")),
                           "error messages differ: XML %s, XTA %s" % (ex[:4], et[:4]), c)
             continue
         if wx != wt:
@@ -99,6 +220,10 @@ def run(rep, tier, seed):
         d = deepdiff.first_diff(canon(sx["doc"]), canon(st["doc"]))
         if d:
             rep.violation("C05:document-differs:%s" % d[0], "at %s: XML has %r, XTA has %r" % (d[0], d[1], d[2]), c)
+        if m.get("old"):
+            rep.extra["old_syntax_pairs"] = rep.extra.get("old_syntax_pairs", 0) + 1
+            if not ex:
+                rep.extra["old_syntax_pairs_accepted"] = rep.extra.get("old_syntax_pairs_accepted", 0) + 1
         if not faulty and not ex:
             # referee: the XTA document against the abstract model as well
             for k, msg in GM.compare(GM.expected(m), st["doc"], analysed=True)[:3]:
